@@ -24,7 +24,8 @@ class LockFile:
         except FileExistsError:
             self.fd = os.open(self.filename, os.O_RDWR | os.O_CLOEXEC)
         else:
-            os.write(self.fd, bytes(maximum - minimum))
+            # others may already have opened the file and stored a counter
+            os.ftruncate(self.fd, maximum - minimum)
 
     def close(self):
         os.close(self.fd)
@@ -84,7 +85,9 @@ class ParallelMailboxLock:
         except BaseException:
             self.task_lock.release()
             raise
-        self.counter, = os.pread(self.lock_file.fd, 1, self.no)
+        # the file may still be empty while its creator initializes it
+        data = os.pread(self.lock_file.fd, 1, self.no)
+        self.counter = data[0] if data else 0
 
     async def __aexit__(self, a, b, c):
         os.pwrite(self.lock_file.fd, bytes((self.counter,)), self.no)
